@@ -46,6 +46,7 @@ pub fn script_world(prop: &str, coin: &str, scripts: Vec<Vec<u8>>, rng: &mut Rng
                 })
                 .collect(),
             locktime: k as u32,
+            cs_width: 0,
         });
     }
     // first output of the coinbase must exist (simplestats reads it): guaranteed by chunks>=1
@@ -66,6 +67,7 @@ pub fn script_world(prop: &str, coin: &str, scripts: Vec<Vec<u8>>, rng: &mut Rng
                         script: Bytes(crate::ser::p2pkh(&rng.bytes(20))),
                     }],
                     locktime: 0,
+                    cs_width: 0,
                 },
             );
         }
